@@ -49,6 +49,11 @@ var (
 	// failed HTLC attempt.
 	ErrAttemptAlreadyFailed = errors.New("attempt already failed")
 
+	// ErrAttemptNotRegistered is returned if we try to settle or fail an
+	// HTLC attempt that was never registered for the given payment.
+	ErrAttemptNotRegistered = errors.New("attempt not registered for " +
+		"payment")
+
 	// ErrValueMismatch is returned if we try to register a non-MPP attempt
 	// with an amount that doesn't match the payment amount.
 	ErrValueMismatch = errors.New("attempted value doesn't match payment " +
